@@ -1191,3 +1191,10 @@ mod tests {
         });
     }
 }
+
+// verification hook (guard: --cfg ipa_verif)
+#[cfg(all(test, ipa_verif))]
+#[allow(warnings, clippy::all, clippy::pedantic)]
+pub(crate) mod verif {
+    include!(concat!(env!("IPA_VERIF_DIR"), "/h3_context.rs"));
+}
